@@ -346,6 +346,14 @@ def convLhsHat (Ahat Dhat xhat : Mat α K N) : Mat α K N :=
 
 end Conv
 
+/-- read an array as a vector -/
+def thaw {α : Type} [Inhabited α] {n : Nat} (a : Array α) : Vec α n := fun i => a.getD i.val default
+
+/-- materialise a vector (`freeze v = v`, theorem `freeze_eq`).  Written as a macro so that the array is
+    built where the vector is defined: a *function* `memo v` would be compiled with arity 2 and rebuild
+    the array at every index, making iterated models exponential. -/
+macro "freeze " t:term : term => `(thaw (Array.ofFn $t))
+
 /-! ## bisection  (`scico.solver.bisect`), vectorised over `n` independent scalar functions -/
 
 structure BisectSt (α : Type) (n : Nat) where
@@ -374,15 +382,15 @@ def bisectInit (f : Fin n → α → α) (a b : Vec α n) : BisectSt α n :=
 
 /-- one body of the `for` loop -/
 def bisectStep (f : Fin n → α → α) (s : BisectSt α n) : BisectSt α n :=
-  let c : Vec α n := Vec.memo fun i => (s.a i + s.b i) / two
-  let fc : Vec α n := Vec.memo fun i => f i (c i)
-  let a' : Vec α n := Vec.memo fun i =>
+  let c : Vec α n := freeze fun i => (s.a i + s.b i) / two
+  let fc : Vec α n := freeze fun i => f i (c i)
+  let a' : Vec α n := freeze fun i =>
     if isZero (sgn (s.fa i) * sgn (fc i) - 1) || isZero (fc i) then c i else s.a i
-  let b' : Vec α n := Vec.memo fun i =>
+  let b' : Vec α n := freeze fun i =>
     if isZero (sgn (fc i) * sgn (s.fb i) - 1) || isZero (fc i) then c i else s.b i
   { a := a', b := b'
-    fa := Vec.memo fun i => f i (a' i)
-    fb := Vec.memo fun i => f i (b' i)
+    fa := freeze fun i => f i (a' i)
+    fb := freeze fun i => f i (b' i)
     xerr := vmaxAbs fun i => b' i - a' i
     ferr := vmaxAbs fc
     steps := s.steps + 1 }
@@ -442,16 +450,16 @@ def goldInit (gr : α) (a b : Vec α n) (c : Option (Vec α n)) : GoldSt α n :=
 
 /-- the part of the loop body before the `break` test -/
 def goldShrink (f : Fin n → α → α) (s : GoldSt α n) : GoldSt α n :=
-  let fc : Vec α n := Vec.memo fun i => f i (s.c i)
-  let fd : Vec α n := Vec.memo fun i => f i (s.d i)
-  let b' : Vec α n := Vec.memo fun i => if fc i < fd i then s.d i else s.b i
-  let a' : Vec α n := Vec.memo fun i => if fc i ≥ fd i then s.c i else s.a i
+  let fc : Vec α n := freeze fun i => f i (s.c i)
+  let fd : Vec α n := freeze fun i => f i (s.d i)
+  let b' : Vec α n := freeze fun i => if fc i < fd i then s.d i else s.b i
+  let a' : Vec α n := freeze fun i => if fc i ≥ fd i then s.c i else s.a i
   { s with a := a', b := b', xerr := vmaxAbs fun i => b' i - a' i, steps := s.steps + 1 }
 
 /-- the part after it: new interior points -/
 def goldPoints (gr : α) (s : GoldSt α n) : GoldSt α n :=
-  { s with c := Vec.memo fun i => s.b i - gr * (s.b i - s.a i)
-           d := Vec.memo fun i => s.a i + gr * (s.b i - s.a i) }
+  { s with c := freeze fun i => s.b i - gr * (s.b i - s.a i)
+           d := freeze fun i => s.a i + gr * (s.b i - s.a i) }
 
 def goldLoop (gr : α) (f : Fin n → α → α) (xtol : α) : Nat → GoldSt α n → GoldSt α n
   | 0, s => s
